@@ -170,11 +170,15 @@ CLAIMS = {
                 "C18_refuse / C18_refuse_index / C18_no_unlabeled (refused rather than returned with unlabeled entries), C18_order (size-sorted, "
                 "largest first, stable), C18_labels (on every reachable state the wrapper's labels are exactly these ranks, never refused), "
                 "C18_predict (label of a nearest centroid, first on ties), C18_transform, C18_dist_range, C18_centers_aligned. "
-                "Correspondence: real sklearn wrappers vs model on labels_, centres, predict, transform (bit-exact), dump_assignments.",
+                "Correspondence: real sklearn wrappers vs model on labels_, centres, predict, transform (bit-exact), dump_assignments."
+                + GEN.format(src="fit / partial_fit / fit_predict of bblean.sklearn.BitBirch (super().fit and get_assignments as logged calls whose results are "
+                                 "inputs, compute_labels and the stacked centroids as inputs; theorems C18_code_fit_predict_fresh: for both values of "
+                                 "compute_labels exactly one get_assignments call follows the base-class fit of this call and its result is what is returned "
+                                 "and stored in labels_, C18_code_fit, C18_code_partial_fit; BBProofs/GenEq14.lean)", prop="C18"),
         "note": TB + "scikit-learn's pairwise_distances (boolean Jaccard = one float64 division, 0 for two empty rows) and "
                 "pairwise_distances_argmin (first minimum) are external calls whose assumed behaviour is transcribed in jaccardDist / "
                 "argminFirst and tied by correspondence only. Queries without empty rows, as the property states.",
-        "technique": "Lean 4 theorems over executable model + differential correspondence",
+        "technique": TGEN,
     },
     "C05": {
         "text": "C05_partition (every successful workflow: the final clusters are a permutation of 0..N-1, N = total rows in input-file "
